@@ -352,4 +352,5 @@ def target_cli_purity():
 
 
 def targets():
-    return [target_cli_purity(), target_apply_filters(), target_get_mock_data(), target_parse_command(), target_fit_command(), target_simulate(), target_drt_command("individual_plots"), target_drt_command("overlay_plot")]
+    from . import forwarding
+    return [forwarding.target_cli_wrappers(), target_cli_purity(), target_apply_filters(), target_get_mock_data(), target_parse_command(), target_fit_command(), target_simulate(), target_drt_command("individual_plots"), target_drt_command("overlay_plot")]
